@@ -341,6 +341,30 @@ fn replace_patch_headers(patch_str: &str, from_path: &Path, to_path: &Path) -> S
         }
     };
 
+    // diffy refuses an unquoted file name containing one of these characters; write such names in
+    // the quoted form its parser accepts.
+    let quote = |name: String| -> String {
+        if !name.contains(['\n', '\t', '\0', '\r', '"', '\\']) {
+            return name;
+        }
+        let mut q = String::from("\"");
+        for c in name.chars() {
+            match c {
+                '\n' => q.push_str("\\n"),
+                '\t' => q.push_str("\\t"),
+                '\0' => q.push_str("\\0"),
+                '\r' => q.push_str("\\r"),
+                '"' => q.push_str("\\\""),
+                '\\' => q.push_str("\\\\"),
+                c => q.push(c),
+            }
+        }
+        q.push('"');
+        q
+    };
+    let from_str = quote(from_str);
+    let to_str = quote(to_str);
+
     // Only the two header lines in front of the first hunk are file names; a changed line
     // such as "-- x" is printed as "--- x" inside a hunk and must be left alone.
     let mut in_header = true;
